@@ -24,7 +24,7 @@ SPEC = dict(
         "partially freed graph (at least one probe or event fails on the twin)"
     ),
     bound=dict(
-        quick="8 graphs (4 backward, 4 trunk/heads; with/without saved tensors); events: torchjd call with k in {None,1,2,m} x retain in {F,T}, "
+        quick="13 graphs (5 backward incl. a one-row Jacobian, 7 trunk/heads incl. a task without parameters and a regulariser loss, 1 wide; with/without saved tensors), single-loss mtl; events: torchjd call with k in {None,1,2,m} x retain in {F,T}, "
               "autograd.backward with retain in {F,T}; all histories of length <= 3 (length 3 restricted to k in {None,1})",
         thorough="all histories of length <= 3 over the full alphabet and of length 4 with k in {None,1,2}; m in {2,3,4}",
     ),
@@ -36,9 +36,9 @@ SPEC = dict(
 )
 
 DETERMINISM_SLICE = 12
-BW_GRAPHS = ("saved", "nosaved", "mixed", "shared-trunk")
+BW_GRAPHS = ("saved", "nosaved", "mixed", "shared-trunk", "single-row")
 WIDE_M = 300
-MTL_GRAPHS = ("saved-saved", "nosaved-nosaved", "saved-nosaved", "nosaved-saved", "saved-penalty", "saved-regulariser")
+MTL_GRAPHS = ("saved-saved", "nosaved-nosaved", "saved-nosaved", "nosaved-saved", "saved-penalty", "saved-regulariser", "saved-noparams")
 
 
 def _events(tier, length_total, m):
@@ -64,6 +64,12 @@ def gen_cases(tier, seed):
                     for first in range(len(ev)):
                         block = [h for h in hs if h[0] == first]
                         cases.append(dict(ep=ep, graph=g, m=m, L=L, hist=[[list(ev[i]) for i in h] for h in block], seed=seed))
+    # a single loss (one-row Jacobian; added after a seeded change: a one-row shortcut that forgot the flag)
+    for g in ("saved-saved", "saved-nosaved"):
+        for L in (1, 2, 3):
+            ev = _events(tier, L, 1)
+            hs = list(itertools.product(range(len(ev)), repeat=L))
+            cases.append(dict(ep="mtl", graph=g, m=1, L=L, hist=[[list(ev[i]) for i in h] for h in hs], seed=seed))
     # 300 rows in one sweep (added after a seeded change - vmap's own sub-chunking capped at 256 rows, so that the last sweep ran
     # twice with the caller's flag - was missed): histories of <= 2 events, k in {None, 7, 300, 1000}
     ev = [("T", k, r) for k in (None, 7, WIDE_M, 1000) for r in (False, True)] + [("A", None, False)]
@@ -82,6 +88,8 @@ def _bw_graph(kind, m):
     if kind == "wide":
         a = torch.linspace(-1.0, 2.0, m, dtype=torch.float64).requires_grad_()
         outs = [a * a * b]
+    elif kind == "single-row":  # ONE 0-d output: the Jacobian has a single row
+        outs = [(a * a * b).sum()]
     elif kind == "saved":
         outs = [a * b, (a * a).sum()]
     elif kind == "nosaved":
@@ -106,6 +114,14 @@ def _mtl_graph(kind, m):
     for i in range(m):
         p = torch.tensor([0.5 + i, -1.0, 2.0 - i], dtype=torch.float64, requires_grad=True)
         ps.append(p)
+        if head == "noparams" and i == m - 1:  # the LAST task has no parameter of its own; its loss saves tensors
+            ps.pop()
+            ps.append(None)
+            losses.append((f * f).sum())
+            continue
+        if head == "noparams":
+            losses.append((f * p).sum())
+            continue
         if head == "regulariser" and i == m - 1:  # the LAST loss ignores the features (pure regulariser): its Jacobian row is zero
             losses.append((p * p).sum())
             continue
@@ -118,7 +134,7 @@ def _mtl_graph(kind, m):
             extras.append((f"penalty{i}", pen, [p]))
         else:
             losses.append((f * p).sum() if head == "saved" else (f + p).sum())
-    return dict(params=[a, b], feats=[f], losses=losses, tparams=[[p] for p in ps], extras=extras)
+    return dict(params=[a, b], feats=[f], losses=losses, tparams=[[p] if p is not None else [] for p in ps], extras=extras)
 
 
 def _try(fn):
@@ -161,7 +177,8 @@ def _probes(ep, G):
     else:
         for i, L in enumerate(G["losses"]):
             out.append((f"head{i}", _try(lambda L=L: torch.autograd.grad(L, G["feats"], retain_graph=True, allow_unused=True))))
-            out.append((f"headparam{i}", _try(lambda L=L, i=i: torch.autograd.grad(L, G["tparams"][i], retain_graph=True, allow_unused=True))))
+            if G["tparams"][i]:
+                out.append((f"headparam{i}", _try(lambda L=L, i=i: torch.autograd.grad(L, G["tparams"][i], retain_graph=True, allow_unused=True))))
         out.append(("trunk", _try(lambda: torch.autograd.grad(G["feats"], G["params"], grad_outputs=[torch.ones_like(f) for f in G["feats"]],
                                                                   retain_graph=True, allow_unused=True))))
         out.append(("full", _try(lambda: torch.autograd.grad(G["losses"], G["params"], grad_outputs=[torch.ones_like(L) for L in G["losses"]],
